@@ -190,10 +190,11 @@ def cli_args(draw, options=None, weight_default=3):
 def pipeline_case(draw, modes=MODES, kinds=ALL_KINDS, max_refs=3, max_queries=6, options=None, weight_default=3,
                   ref_sizes=("tiny", "small", "medium", "medium", "large", "large"), min_queries=1):
     nr = draw(st.integers(1, max_refs))
-    rids = draw(st.lists(st.integers(1, 999), min_size=nr, max_size=nr, unique=True))
+    # small id ranges on purpose: query ids, reference ids and file positions collide, exposing id/index mix-ups
+    rids = draw(st.lists(st.one_of(st.integers(1, 6), st.integers(1, 999)), min_size=nr, max_size=nr, unique=True))
     refs = [draw(reference_map(rid, ref_sizes)) for rid in rids]
     nq = draw(st.integers(min_queries, max_queries))
-    qids = draw(st.lists(st.integers(1, 99999), min_size=nq, max_size=nq, unique=True))
+    qids = draw(st.lists(st.one_of(st.integers(1, 10), st.integers(1, 99999)), min_size=nq, max_size=nq, unique=True))
     queries = [draw(query_map(qid, refs, kinds)) for qid in qids]
     return {"refs": refs, "queries": queries, "mode": draw(st.sampled_from(list(modes))),
             "args": draw(cli_args(options, weight_default))}
